@@ -306,6 +306,38 @@ impl Check for C20 {
             };
             cx.count(if started.is_ok() { "started-before-upgrade" } else { "start-before-upgrade-failed" });
         }
+        // ---- services added WITHOUT a port: half of them are started, stopped and started again, the node picking another
+        //      port the second time (a dynamic port is free to change across restarts). The upgrade then pins the port
+        //      (its one explicit change) and what it pins must be the port the node is listening on now
+        let mut pinned_port: Option<u16> = None;
+        if node_port.is_none() && cx.rng.gen_bool(0.5) {
+            let p1: u16 = cx.rng.gen_range(30_000..40_000);
+            let p2: u16 = p1 + cx.rng.gen_range(1..2000);
+            let mut last = None;
+            let restarts = cx.rng.gen_bool(0.6);
+            for (round, port) in [(0, p1), (1, p2)] {
+                if round == 1 && !restarts {
+                    break;
+                }
+                let listeners: Vec<libp2p::Multiaddr> = vec![format!("/ip4/127.0.0.1/udp/{port}/quic-v1").parse().expect("multiaddr")];
+                let service = NodeService::new(&mut registry.nodes[0], Box::new(ListenRpc { pid: 2001 + round as u32, listeners })).with_connection_timeout(Duration::from_secs(1));
+                let mut m = ant_node_manager::ServiceManager::new(service, Box::new(os.clone()), VerbosityLevel::Minimal);
+                if rt.block_on(m.start()).is_ok() {
+                    last = Some(port);
+                    if round == 0 && restarts && rt.block_on(m.stop()).is_err() {
+                        last = None;
+                        break;
+                    }
+                } else {
+                    last = None;
+                    break;
+                }
+            }
+            if let Some(p) = last {
+                pinned_port = Some(p);
+                cx.count(if restarts { "dynamic-port-services-restarted-on-another-port-before-upgrade" } else { "dynamic-port-services-started-before-upgrade" });
+            }
+        }
         // ---- in a third of the cases another service is added afterwards without any environment option (the
         //      registry keeps one environment for all services; a later add that does not mention it must not clear it)
         if cx.rng.gen_bool(0.33) {
@@ -365,6 +397,14 @@ impl Check for C20 {
             let (f1, f2) = (top_fields(&d1), top_fields(&d2));
             for (k, v1) in &f1 {
                 let v2 = f2.get(k).cloned().unwrap_or_default();
+                if k == "port" && pinned_port.is_some() {
+                    // the one thing the upgrade changes on purpose: the dynamic port is pinned to the current one
+                    let want = pinned_port.unwrap_or(0).to_string();
+                    if v2 != want {
+                        cx.violation("upgrade-pins-another-port-than-the-node-listens-on", format!("the node (added without a port) last listened on {want}; the upgraded definition starts it with port {v2}"), ww.clone());
+                    }
+                    continue;
+                }
                 if *v1 != v2 {
                     cx.violation(format!("upgrade-changes-setting:{k}"), format!("antnode reads `{k}` as {v1} at install but {v2} after an upgrade"), ww.clone());
                 }
